@@ -224,7 +224,7 @@ func report(cfg *PropCfg, tier string, seed int64, results []*HarnessResult, hcf
 				c.Pkg = ph.Pkg
 				b, _ := json.MarshalIndent(c, "", " ")
 				os.WriteFile(file, b, 0o644)
-				if noReplay || ph.Replay == "none" {
+				if noReplay || ph.Replay == "none" || ph.Replay == "engine" {
 					okCex = c
 					lastRO = replayOutcome{Reproduced: true, Result: "replay-skipped"}
 					break
